@@ -502,6 +502,14 @@ func (p *Program) canon(fn *Func, x ast.Expr, depth int) string {
 	case *ast.BasicLit:
 		return v.Value
 	case *ast.SelectorExpr:
+		if fv, ok := p.synthSel[v]; ok {
+			// a field of a by-value part, from an assignment of the whole part (engine.partAssign)
+			base := p.canon(fn, v.X, depth+1)
+			if strings.HasPrefix(base, "&recv") {
+				base = base[1:]
+			}
+			return base + "." + p.FieldName(fv)
+		}
 		if sel, ok := info.Selections[v]; ok {
 			switch sel.Kind() {
 			case types.FieldVal:
@@ -745,7 +753,24 @@ func (p *Program) getterField(f *types.Func) string {
 		if !ok {
 			return ""
 		}
-		id, ok := ast.Unparen(se.X).(*ast.Ident)
+		// recv.field, or recv.part.field through by-value / embedded parts of the receiver's struct
+		base := ast.Unparen(se.X)
+		for {
+			inner, isSel := base.(*ast.SelectorExpr)
+			if !isSel {
+				break
+			}
+			isel, ok := def.Info().Selections[inner]
+			if !ok || isel.Kind() != types.FieldVal {
+				return ""
+			}
+			pf, isVar := isel.Obj().(*types.Var)
+			if !isVar || !(p.isPartField(pf) || (pf.Embedded() && isStructOrPtr(pf.Type()))) {
+				return ""
+			}
+			base = ast.Unparen(inner.X)
+		}
+		id, ok := base.(*ast.Ident)
 		if !ok || def.Info().Uses[id] != def.Recv {
 			return ""
 		}
